@@ -1,6 +1,6 @@
 """C19 — rate limits bound admitted traffic."""
 from ..common import *
-from .. import corr, ratelimit, verdict
+from .. import corr, ratelimit, verdict, conc
 
 MODULE = "KyroModel.Theorems.C19"
 TRUSTED = [
@@ -9,6 +9,93 @@ TRUSTED = [
     "f64 arithmetic of the implementation: the comparison of a case ends at a decision within 10 nano-tokens of the threshold (counted in the evidence)",
     "the argument that a mutex-protected bucket sees calls at monotone clock readings under every interleaving (C19_global_all_schedules) relies on parking_lot mutual exclusion and CLOCK_MONOTONIC",
 ]
+
+
+# ---------------------------------------------------------------------------------------------
+# concurrent callers (controlled scheduler, real RateLimiter, virtual clock moved only by `adv` ops)
+
+DRAIN5 = "warm=rc:b:10;rc:b:10;rc:b:10;rc:b:10;rc:b:10"      # tenant b empties a global bucket of 5 at t=0
+
+
+def conc_programs(thorough, rng):
+    mx = 4000 if thorough else 500
+    lines = [
+        # a caller of tenant a (rate 1, burst 1) is refused by the (empty) global bucket; time passes; two more callers of a
+        "explore rl=5 %s t0=rc:a:1 t1=adv:1000;rc:a:1;rc:a:1 mode=dfs bound=3 max=%d" % (DRAIN5, mx),
+        "explore rl=5 %s t0=rc:a:1 t1=adv:1000 t2=rc:a:1;rc:a:1 mode=dfs bound=2 max=%d" % (DRAIN5, mx),
+        "explore rl=5 %s t0=rc:a:2;rc:a:2 t1=adv:500;rc:a:2;rc:a:2 mode=dfs bound=2 max=%d" % (DRAIN5, mx),
+        # no time passes at all: burst only, jointly
+        "explore rl=- t0=rc:a:2;rc:a:2 t1=rc:a:2;rc:a:2 mode=dfs bound=2 max=%d" % mx,
+        "explore rl=3 t0=rc:a:2;rc:a:2 t1=rc:b:2;rc:b:2 t2=rc:c:2 mode=dfs bound=2 max=%d" % mx,
+        "explore rl=1 t0=rc:a:1;rc:a:1 t1=rc:b:1;rc:a:1 mode=dfs bound=2 max=%d" % mx,
+    ]
+    for _ in range(40 if thorough else 8):
+        ops = ["rc:a:1", "rc:a:2", "rc:b:2", "adv:500", "adv:1000", "rc:a:1"]
+        ts = [";".join(rng.choice(ops) for _ in range(rng.choice([1, 2, 3]))) for _ in range(3)]
+        lines.append("explore rl=%s %s t0=%s t1=%s t2=%s mode=random seed=%d max=%d" % (
+            rng.choice(["-", "2", "5"]), rng.choice(["", DRAIN5]), ts[0], ts[1], ts[2], rng.randrange(10 ** 6), 400 if thorough else 60))
+    return [re.sub(r"  +", " ", l) for l in lines]
+
+
+def window_violation(calls, rate, burst):
+    """calls: [(t_before, t_after, admitted)]; every window [t_before_i, t_after_j]: admitted inside <= burst + rate*dt"""
+    adm = sorted((c for c in calls if c[2]), key=lambda c: (c[0], c[1]))
+    for i in range(len(adm)):
+        for j in range(i, len(adm)):
+            a, b = adm[i][0], max(adm[j][1], adm[i][1])
+            n = sum(1 for c in adm if c[0] >= a and c[1] <= b)
+            if n > burst + rate * (b - a) / 1e9 + 1e-6:
+                return "%d admitted between t=%.3fs and t=%.3fs, bound %d + %d*dt = %.3f" % (n, (a - 1e12) / 1e9, (b - 1e12) / 1e9, burst, rate, burst + rate * (b - a) / 1e9)
+    return None
+
+
+def conc_check(lines, rep):
+    import concurrent.futures
+    chunks = [lines[i::8] for i in range(8)]
+    results = []
+    with concurrent.futures.ThreadPoolExecutor(max_workers=8) as ex:
+        for part in ex.map(lambda ch: conc.explore(ch) if ch else [], chunks):
+            results += part
+    runs = hist = 0
+    bad = {}
+    for line, r in results:
+        if r is None:
+            rep.violation(rep.write_replay("harness_died.ops", "# engine=conc\n%s\n" % line), no_input=True)
+            continue
+        runs += r["runs"]
+        g = re.search(r" rl=(\S+)", line).group(1)
+        for h in r["histories"]:
+            hist += 1
+            per, allc = {}, []
+            for o in h["ops"]:
+                p = o["op"].split(":")
+                if p[0] != "rc":
+                    continue
+                m = re.fullmatch(r"(true|false)/(\d+)/(\d+)", o["res"])
+                if not m:
+                    continue
+                c = (int(m.group(2)), int(m.group(3)), m.group(1) == "true")
+                per.setdefault((p[1], int(p[2])), []).append(c)
+                allc.append(c)
+            txt = "; ".join("T%d %s=>%s [%d,%d]" % (o["t"], o["op"], o["res"].split("/")[0], o["inv"], o["ret"]) for o in sorted(h["ops"], key=lambda o: o["inv"]))
+            for (t, qps), calls in per.items():
+                w = window_violation(calls, qps, qps)
+                if w:
+                    bad.setdefault("c19-conc-tenant", []).append((line, "tenant %s (rate %d/s, burst %d): %s -- %s" % (t, qps, qps, w, txt)))
+            if g != "-" and not line.count("warm="):
+                w = window_violation(allc, int(g), int(g))
+                if w:
+                    bad.setdefault("c19-conc-global", []).append((line, "global limit %s: %s -- %s" % (g, w, txt)))
+    for kind, items in bad.items():
+        line, txt = min(items, key=lambda x: len(x[1]))
+        sig = {"engine": "conc", "kind": kind}
+        kf = match_known("C19", sig)
+        if kf:
+            rep.known_finding(kf)
+            continue
+        p = rep.write_replay("%s.ops" % kind, "# engine=conc\n# ORACLE FAILURE on the implementation (real RateLimiter, controlled schedule, virtual clock): %s\n# (%d such histories in this run)\n%s\n" % (txt, len(items), line))
+        rep.violation(p)
+    return {"programs": len(lines), "executions": runs, "distinct_histories": hist, "violations_by_kind": {k: len(v) for k, v in bad.items()}}
 
 
 def run(tier, seed, replay):
@@ -21,12 +108,22 @@ def run(tier, seed, replay):
         proof_coverage(rep, info, "lake build " + MODULE, TRUSTED)
         return rep.finish()
     stats = {"cases": 0, "ops": 0, "validated": 0, "distinct": set()}
+    clines = []
     if replay:
-        cases = [corr.read_replay(replay)[1]]
+        eng, ops = corr.read_replay(replay)
+        cases = [ops] if eng != "conc" else []
+        clines = [l for l in ops if l.startswith(("explore ", "replay "))] if eng == "conc" else []
     else:
+        d = os.path.join(CORPUS, "C19")
+        for f in sorted(os.listdir(d)) if os.path.isdir(d) else []:
+            eng, ops = corr.read_replay(os.path.join(d, f))
+            if eng == "conc":
+                clines += [l for l in ops if l.startswith(("explore ", "replay "))]
+        clines += conc_programs(thorough, rng_for(seed, "C19/conc"))
         rng = rng_for(seed, "C19")
         cases = [ratelimit.gen_case(rng, n_ops=120 if thorough else 60) for _ in range(6000 if thorough else 600)]
     findings = corr.collect("ratelimit", cases, ratelimit.oracle, {"c19-tenant", "c19-global", "c19-refused-with-budget", "panic"}, rep, stats)
+    ccov = conc_check(clines, rep) if clines else {}
     verdict.settle(rep, ok, info, findings, MODULE)
     proof_coverage(rep, info, "cd lean && lake build %s && lake env lean <#print axioms audit>" % MODULE, TRUSTED)
     rep.coverage.update({
@@ -41,7 +138,11 @@ def run(tier, seed, replay):
         "ops_executed": stats["ops"],
         "samples": [cases[-1][:12]] if cases else [],
         "harness_build_s": round(bsecs, 1),
+        "concurrent": dict(ccov, rule="2-3 caller threads on the real RateLimiter under the controlled scheduler (lock-acquisition granularity, DFS with "
+                                      "preemption bound 2-3, plus random schedules); the virtual clock moves only through explicit `adv` operations that "
+                                      "are scheduled like any other; every window [before call i, after call j] of every history: admitted <= burst + "
+                                      "rate*dt per tenant, and globally when the global bucket starts full"),
     })
-    rep.assumptions = ["sequential callers in this run (the concurrent refund window is exercised by the scheduler check)",
+    rep.assumptions = ["interleavings at lock-acquisition granularity",
                        "same max_qps for a tenant on every call"]
     return rep.finish()
